@@ -7,9 +7,9 @@ CONSTANTS
   SegLens = {0, 1, 3, 4, 5}
   MaxTotal = 9
   NoCtx = NoCtx
-  SbThreshold = 1
+  SbThreshold = 2
   TrackStream = FALSE
 CONSTRAINT Bounded
-INVARIANTS TotalIsSum PartialLenOk CompleteIsWhole
-
+INVARIANTS LanePartition OwnersAreHeld ReturnedNotProcessing FlushNullLeavesEmpty NeverFull ReturnedState
+PROPERTIES FlushNullIffEmpty
 CHECK_DEADLOCK FALSE
